@@ -82,6 +82,14 @@ def step (s : St) (ws : List String) : Out :=
   let m := s.mem
   let o := s.cur.opts
   match ws with
+  | "resetself" :: idxs =>
+    match idxs.mapM String.toNat? with
+    | none => ("bad-op", some s)
+    | some idxs =>
+      -- the sources are views into the object's own value buffer
+      let views := Msg.selectOwn o idxs
+      if s.pool then runM s (poolEdit s (s.msg.resetOptionsTo g gb views) true)
+      else runM s (rawEdit s (fun m o b => Options.resetOptionsTo g m o b views))
   | "resetto" :: _n :: items =>
     match parseItems items with
     | none => ("bad-op", some s)
@@ -245,6 +253,7 @@ def parseOp (ws : List String) : Option Op :=
   | ["setloc", p] => do pure (.setPath 8 (← parseHex? p))
   | ["addquery", q] => do pure (.addQuery (← parseHex? q))
   | "resetto" :: _ :: items => do pure (.resetTo (← parseItems items))
+  | "resetself" :: idxs => do pure (.resetSelf (← idxs.mapM String.toNat?))
   | ["clone"] => some .clone
   | ["swap"] => some .swap
   | ["reset"] => some .reset
